@@ -63,18 +63,19 @@ Theorem c02_b_spec w q items tr : c02_b w q items tr = true <-> C02_trace w q 2 
 Proof. apply c02_go_spec. Qed.
 
 (** * C05 *)
-Inductive C05_trace (w : world) (q : query) : option bobs -> list item -> list bobs -> Prop :=
-| c5t_nil p : C05_trace w q p [] []
-| c5t_restart p r tr : C05_trace w q p r tr -> C05_trace w q p (IRestart :: r) tr
-| c5t_block p ops r ob tr :
+Inductive C05_trace (w : world) (q : query) : N -> option bobs -> list item -> list bobs -> Prop :=
+| c5t_nil h p : C05_trace w q h p [] []
+| c5t_restart h p r tr : C05_trace w q h p r tr -> C05_trace w q h p (IRestart :: r) tr
+| c5t_block h p ops r ob tr :
     (* for every queried group: SUCCESS only with all declared children SUCCESS; failure family =>
-       every child in it; never SUCCESS after a failure; in the failing block the notifications are complete *)
-    (forall g, In g (q_gids q) -> c5_check w q ops p ob g = true) ->
-    C05_trace w q (Some ob) r tr -> C05_trace w q p (IBlock ops :: r) (ob :: tr).
+       every child in it; never SUCCESS after a failure; not BEGIN from the block of its timeout height on;
+       in the failing block the notifications are complete *)
+    (forall g, In g (q_gids q) -> c5_check w q (h + 1) ops p ob g = true) ->
+    C05_trace w q (h + 1) (Some ob) r tr -> C05_trace w q h p (IBlock ops :: r) (ob :: tr).
 
-Lemma c05_go_spec w q : forall items p tr, c05_go w q p items tr = true <-> C05_trace w q p items tr.
+Lemma c05_go_spec w q : forall items h p tr, c05_go w q h p items tr = true <-> C05_trace w q h p items tr.
 Proof.
-  induction items as [|it r IH]; intros p tr.
+  induction items as [|it r IH]; intros h p tr.
   - simpl. destruct tr; split; intro H; try discriminate; try constructor; inversion H.
   - destruct it as [ops|]; simpl.
     + destruct tr as [|ob tr']; [split; [discriminate | intro H; inversion H]|].
@@ -83,7 +84,7 @@ Proof.
       * intro H. inversion H; subst. auto.
     + rewrite IH. split; [intro H; constructor; exact H | intro H; inversion H; assumption].
 Qed.
-Theorem c05_b_spec w q items tr : c05_b w q items tr = true <-> C05_trace w q None items tr.
+Theorem c05_b_spec w q items tr : c05_b w q items tr = true <-> C05_trace w q 2 None items tr.
 Proof. apply c05_go_spec. Qed.
 
 (** * C06 *)
